@@ -149,6 +149,8 @@ def loop_stmt(form, n, k, lb, in_gen):
         return f"{lab}: for (var {i} = 0; {i} < {n}; {i}++) {{ {lb} continue {lab}; }}"
     if form == "lnest":
         return f"{lab}: for (var {i} = 0; {i} < {n}; {i}++) {{ {lb} for (;;) {{ continue {lab}; }} }}"
+    if form == "nest2":
+        return f"for (var {i} = 0; {i} < {n}; {i}++) {{ {lb} for (var q{k} = 0; q{k} < 2; q{k}++) {{}} }}"
     if form == "wyield":
         assert in_gen
         return f"var {i} = 0; while ({i} < {n}) {{ {i}++; {lb} yield {i}; }}"
@@ -432,20 +434,35 @@ def owner_of(f0):
     return "continuation" if f0["cont"] else "job"
 
 
+def open_wrappers(acts, f):
+    """try/catch/finally constructs of the dead chain that are open at the limit point"""
+    ids = f["ids"]
+    n = 0
+    for x in range(len(ids) - 1):
+        par, ch = acts[ids[x] - 1], acts[ids[x + 1] - 1]
+        if ch["wrap"] != "n":
+            n += 1
+        if ch["site"] == "b" and par["bwrap"] != "n":
+            n += 1
+        if ch["site"] == "b" and par["lwrap"] != "n":
+            n += 1
+    if ids and f["kind"] == "limit:LoopIteration" and acts[ids[-1] - 1]["lwrap"] != "n" and f["forms"][-1] != "none":
+        n += 1                                   # the loop itself sits in a try block / finally block / catch block
+    return n
+
+
 def nontrivial(g):
-    """a limit is actually hit inside a try/catch/finally or across a native re-entry (per the exact outcome)"""
+    """in the exact outcome (any allowed outcome for stack-size scenarios) a limit fires while a try construct is open on
+    the dead chain, or the dead chain crosses a native re-entry / job / continuation route"""
     acts = g["sc"]["acts"]
     for o in g["outs"]:
         if not o["exact"] and g["sc"]["S"] < 0:
             continue
         for f in o["fire"]:
-            ch = f["chain"]
-            if any(r not in ("script", "call", "new") for r in ch):
+            if any(r not in ("script", "call", "new") for r in f["chain"]) or (f["s"] == 2):
                 return True
-            # any wrapper on the dead chain
-            for a in acts:
-                if a["wrap"] != "n" or a["lwrap"] != "n" or a["bwrap"] != "n":
-                    return True
+            if open_wrappers(acts, f) > 0:
+                return True
     return False
 
 
@@ -565,11 +582,11 @@ def run(tier, replay=None):
                   distinct_nontrivial=n_nontriv, scenarios_with_limit_hit=n_fired, scenarios_under_all_limits=n_unlimited,
                   allowed_outcomes=n_out, routes=len(routes_seen), loop_forms=len(forms_seen - {"none"}),
                   limit_kinds=sorted(kinds_seen), chain_owners=sorted(owners_seen), print_kinds_observed=len(events_seen),
-                  failing_signatures=len(fails),
-                  rule="one replay per TLC-enumerated scenario x limit triple (three host steps each: eval, run_jobs, eval); "
+                  failing_signatures=len(fails), known_signatures_hit=sorted(set(fails) & {k.get("signature") for k in ck.known}),
+                  rule="one replay per TLC-enumerated scenario x limit triple (three host steps each: eval, run_jobs, call); "
                        "non-trivial = in the model's exact outcome a limit fires while a try/catch/finally wrapper is open on the "
                        "dead chain or the chain crosses a native re-entry / job / continuation route")
-    floor = 400 if tier == "quick" else 4000
+    floor = 800 if tier == "quick" else 10000
     if n_nontriv < floor:
         raise vlib.ToolError(f"vacuity guard: only {n_nontriv} non-trivial scenarios (< {floor})")
     if not os.environ.get("C08_FAMILIES"):
